@@ -380,6 +380,22 @@ def shared_expr_program(rng) -> dict:
         lambda: {"k": "catch", "body": x, "handlers": [[["ValueError"], "recover"]]},
         lambda: call("inc", x),
     ]
+    if rng.random() < 0.35:
+        # the shared call FAILS: one use absorbs the failure first (catch, catch_all, a caught element of seq, the
+        # guard of a cond), another use of the same expression must still see the error, not a value
+        x = call(rng.choice(["boom", "kboom"]), V(k))
+        caught = {"k": "catch", "body": x, "handlers": [[["Exception"], "recover"]]}
+        fuses = [
+            lambda: {"k": "seq", "items": [caught, x]},
+            lambda: {"k": "seq", "items": [caught, slow, call("inc", x)]},
+            lambda: {"k": "cond", "clauses": [[{"k": "op", "op": "lt", "args": [caught, V(0)]}, x]], "else": V(5)},
+            lambda: {"k": "catch_all", "items": [x, call("inc", x)], "cls": ["ValueError", "KeyError"], "recover": "recover_all"},
+            lambda: {"k": "list", "items": [caught, {"k": "catch", "body": call("inc", x), "handlers": [[["Exception"], "recover2"]]}]},
+            lambda: {"k": "seq", "items": [caught, {"k": "catch", "body": x, "handlers": [[["Exception"], "recover2"]]}]},
+            lambda: caught,
+        ]
+        items = [rng.choice(fuses)() for _ in range(rng.randint(1, 3))]
+        return {"k": rng.choice(["list", "tuple"]), "items": items}
     n = rng.randint(2, 4)
     items = [rng.choice(uses)() for _ in range(n)]
     return {"k": rng.choice(["list", "tuple"]), "items": items}
